@@ -7,7 +7,11 @@ ID = "C09"
 TITLE = "every rule form counts its parent correctly from its children, with parameters"
 COQ_PROPS = "Props/C09.v"
 COQ_RUN = ("Count.ConstructorsRun", "run_c09")
-GEN_TARGETS = ["compositions", "quotient_parent_shift"]
+GEN_TARGETS = ["compositions", "quotient_parent_shift",
+               # the three parameter-map functions (Count/GenBridgeParamMap.v proves the model's are these)
+               "constructor_param_map", "union_param_map", "quotient_param_map",
+               # the dictionary EquivalencePathRule.constructor composes (Count/GenBridgePathDict.v)
+               "path_dict_initial", "path_dict_compose", "path_dict_invert", "path_dict_duplicates"]
 N = {"quick": 10000, "thorough": 100000}
 RULE = (
     "REAL rule objects of /repo with extra parameters. (words, 45%) the classes of example.py extended with "
@@ -722,5 +726,68 @@ def extra_checks(ctx):
             tags[t] = tags.get(t, 0) + 1
     need = ["form%d" % f for f in range(7)] + ["u:words", "u:syn", "merge", "merge-flipped", "drop", "extra", "edge"]
     missing = [t for t in need if not tags.get(t)] if len(ctx.cases) >= 400 else []
+    from harness import gen_selftest
+
     return [("generator reaches every rule form, both universes, drop/merge/extra statistics", not missing,
-             "never generated: %s" % missing if missing else "ok")]
+             "never generated: %s" % missing if missing else "ok"),
+            gen_selftest.rejects(_BAD_SNIPPETS)] + gen_selftest.checks(GEN_TARGETS, ctx.seed, ID)
+
+
+_PM_SIG = "    @staticmethod\n    def param_map(child_pos_to_parent_pos, num_parent_params, param):\n"
+# source texts outside the translator's subset: each must be REJECTED (fail closed)
+_BAD_SNIPPETS = [
+    ("constructor_param_map", "class Constructor:\n" + _PM_SIG +
+     "        new_params = [0 for _ in range(num_parent_params)]\n        pos = 0\n"
+     "        while pos < len(param):\n            pos += 1\n        return tuple(new_params)\n", "while loop"),
+    ("constructor_param_map", "class Constructor:\n" + _PM_SIG +
+     "        new_params = [0 for _ in range(num_parent_params)]\n"
+     "        for pos, value in enumerate(param):\n            if value == 0:\n                continue\n"
+     "            new_params[pos] += value\n        return tuple(new_params)\n", "continue inside a loop"),
+    ("constructor_param_map", "class Constructor:\n" + _PM_SIG +
+     "        for pos, value in enumerate(param):\n            new_params = [value]\n        return tuple(new_params)\n",
+     "variable first bound inside a loop and used after it"),
+    ("constructor_param_map", "class Constructor:\n" + _PM_SIG +
+     "        new_params = [0 for _ in range(num_parent_params)]\n"
+     "        for pos, value in enumerate(param):\n            new_params[pos] //= value\n        return tuple(new_params)\n",
+     "unsupported augmented operator"),
+    ("constructor_param_map", "class Constructor:\n" + _PM_SIG +
+     "        new_params = [0 for _ in range(num_parent_params)]\n"
+     "        for pos, value in enumerate(param):\n            assert value >= 0\n            new_params[pos] += value\n"
+     "        return tuple(new_params)\n", "assertion appears in a target declared without assertions"),
+    ("union_param_map", "class DisjointUnion:\n" + _PM_SIG +
+     "        new_params = [None for _ in range(num_parent_params)]\n"
+     "        for pos, value in enumerate(param):\n            new_params[pos] = value\n"
+     "        return tuple(0 if p is None else p for p in new_params)\n", "assertion disappeared"),
+    ("union_param_map", "class DisjointUnion:\n" + _PM_SIG +
+     "        new_params: List[Optional[int]] = [None for _ in range(num_parent_params)]\n"
+     "        for pos, value in enumerate(param):\n            assert new_params[pos] + 0 == value\n"
+     "        return tuple(0 if p is None else p for p in new_params)\n", "Optional used as int without a None test"),
+    ("quotient_param_map", "class Quotient:\n    @staticmethod\n"
+     "    def param_map(child_pos_to_parent_pos, num_parent_params, param, extra=None):\n        return param\n",
+     "changed signature"),
+    ("quotient_param_map", "class Quotient:\n    def param_map(child_pos_to_parent_pos, num_parent_params, param):\n"
+     "        return param\n", "decorator removed"),
+    ("path_dict_compose", "class EquivalencePathRule:\n    @property\n    def constructor(self):\n        if self._constructor is None:\n"
+     "            extra_parameters = {k: k for k in self.comb_class.extra_parameters}\n            for rule in self.rules:\n"
+     "                rules_parameters = rule.constructor.extra_parameters[0]\n"
+     "                extra_parameters = {p: rules_parameters.get(c, c) for p, c in extra_parameters.items()}\n",
+     "dict.get with a non-None default"),
+    ("path_dict_compose", "class EquivalencePathRule:\n    @property\n    def constructor(self):\n        if self._constructor is None:\n"
+     "            extra_parameters = {k: k for k in self.comb_class.extra_parameters}\n            for rule in self.rules:\n"
+     "                rules_parameters = rule.constructor.extra_parameters[0]\n                for p, c in list(extra_parameters.items()):\n"
+     "                    extra_parameters[p] = rules_parameters[c]\n", "the composition became an in-place loop"),
+    ("path_dict_invert", "class EquivalencePathRule:\n    @property\n    def constructor(self):\n        if self._constructor is None:\n"
+     "            for rule in self.rules:\n                rules_parameters = rule.constructor.extra_parameters[0]\n"
+     "                if rule.flipped:\n                    rules_parameters = dict(map(reversed, rules_parameters.items()))\n",
+     "unsupported call"),
+    ("path_dict_duplicates", "class EquivalencePathRule:\n    @property\n    def constructor(self):\n        if self._constructor is None:\n"
+     "            for rule in self.rules:\n                rules_parameters = rule.constructor.extra_parameters[0]\n"
+     "                if isinstance(rule.constructor, Complement):\n                    rules_parameters = {b: a for a, b in rules_parameters.items()}\n",
+     "the duplicate-parameter guard is gone"),
+]
+
+
+# translator tie (DESIGN.md 10.9): what the regenerated definitions add to the level
+LEVEL_NOTE += (
+    " Translator tie: the three param_map functions (Constructor, DisjointUnion, Quotient) and the four dictionary expressions of EquivalencePathRule.constructor are RE-TRANSLATED from the source on every run; the model's sum_param_map / du_param_map / q_param_map are proved equal to them for ALL arguments and path_dict_step to the regenerated composition for dictionaries with distinct keys (C09_param_map_is_source, C09_union_param_map_is_source, C09_quotient_param_map_is_source, C09_path_dictionary_is_source, C09_path_initial_is_source; Count/GenBridgeParamMap.v, Count/GenBridgePathDict.v); each regenerated definition is evaluated against the source on random arguments every run (harness/gen_selftest.py)."
+)
